@@ -13,6 +13,7 @@
  *   rawok       : direct UDP to the server possible (raw mode frames delivered)
  *   fuzz        : per-mille probability that an answer byte string is mutated (0 for C11)
  *   qtype       : 0 autodetect, else forced type;  downenc: 32 (' ') autodetect else letter
+ *   npkts may be followed by /N: the first N user slots are held by other live clients (this client becomes user N)
  */
 #include "wire.h"
 #include <setjmp.h>
@@ -303,13 +304,19 @@ static int deliver_all(int maxrounds)
  * goes on, its clock already advanced); quiet = print nothing */
 static int session(char **pp, int fresh, int quiet)
 {
-	int v[21], i, rv, npk, okup = 0, okdown = 0, upn = 0, downn = 0;
+	int v[21], i, rv, npk, occupied, okup = 0, okdown = 0, upn = 0, downn = 0;
 	char *p = *pp, rep[256];
 	unsigned long seed;
 	seed = strtoul(p, &p, 10);
 	for (i = 0; i < 19; i++)
 		v[i] = (int)strtol(p, &p, 10);
 	npk = v[18];
+	/* optional 21st number after a '/': slots already taken by other (live) clients, so that this client gets that user id */
+	occupied = 0;
+	if (*p == '/') {
+		p++;
+		occupied = (int)strtol(p, &p, 10);
+	}
 	*pp = p;
 	R.qcase = v[0]; R.q8 = v[1]; R.qpunct = v[2]; R.acase = v[3]; R.a8 = v[4]; R.apunct = v[5];
 	R.types = v[6]; R.sizelimit = v[7]; R.edns = v[8]; R.rawok = v[9]; R.fuzz = v[10];
@@ -321,6 +328,11 @@ static int session(char **pp, int fresh, int quiet)
 	if (fresh) {
 		verif_now = 3000000;
 		srv_init("t.example.com", "sesame", 1, "10.0.0.1", 27, 1130);
+	}
+	for (i = 0; i < occupied && i < 16; i++) {
+		struct tun_user *u = srv_user(i);
+		u->active = 1;
+		u->last_pkt = verif_now + 100000;	/* stays live for the whole case */
 	}
 	cli_prepare_handshake("t.example.com", "sesame", v[11], (char)v[12], v[13], v[17]);
 	wire_sendto_hook = on_sendto;
